@@ -151,6 +151,32 @@ def run(ctx):
                                        stdout_head=out[:300].decode('utf-8', 'backslashreplace'), stderr_tail=prb.stderr[-300:].decode('utf-8', 'backslashreplace'),
                                        how='python replay_parser.py --replay <file> <options>: stdout must be empty (failure, non-zero exit) or exactly one JSON document'))
                     break
+        # the same tool with its standard error on a TERMINAL (a pseudo-terminal; stdout still a pipe): whatever it shows there - progress, colours -
+        # standard output is still exactly one JSON document
+        import pty, threading
+        for f in optfiles:
+            m_, s_ = pty.openpty(); sink = []
+            def drain():
+                try:
+                    while True:
+                        d_ = os.read(m_, 65536)
+                        if not d_: break
+                        sink.append(d_)
+                except OSError: pass
+            th = threading.Thread(target=drain, daemon=True); th.start()
+            try: prb = subprocess.run([common.PY, os.path.join(common.REPO, 'replay_parser.py'), '--replay', f], stdout=subprocess.PIPE, stderr=s_, stdin=subprocess.DEVNULL, env=env, timeout=600, cwd=tmp)
+            finally:
+                os.close(s_); th.join(5)
+                try: os.close(m_)
+                except OSError: pass
+            ctx.case(('cli-stderr-tty', os.path.basename(f))); ctx.count('cli:stderr-on-a-terminal')
+            out = prb.stdout
+            try: one_doc = prb.returncode == 0 and json.loads(out.decode('utf-8')) is not None and out.lstrip()[:1] in (b'{', b'[')
+            except ValueError: one_doc = False
+            if not one_doc:
+                ctx.violation(dict(kind='cli-output', file=os.path.basename(f), stderr='a pseudo-terminal', exit_code=prb.returncode, stdout_head=out[:300].decode('utf-8', 'backslashreplace'),
+                                   how='python replay_parser.py --replay <file> with standard error attached to a pty (pty.openpty) and standard output to a pipe: stdout must be exactly one JSON document'))
+                break
         # pickled records whose values contain THEMSELVES (legal for pickle): the summary must stay free of cycles
         for v in picks[:1] + picks[-2:]:
             p = os.path.join(tmp, 'cyc-%s.wowsreplay' % v)
